@@ -106,6 +106,46 @@ def check_doc(acc, headers, hist, pre=()):
                      {'spine_ids': list(ids), 'spine_types': sorted(ts)})
 
 
+def check_wide(acc, seed):
+    from .. import docspace as D
+    h, seq, sd = D.wide_docs(seed)[0]
+    m = X.seq_model(h, seq, sd, cap=16)
+    text = m.text()
+    case = {'text': text, 'headers': h, 'hist': [[c.spec for c in r] for r in m.crows()[1:-1]], 'pre': []}
+    doc, _ = kp.loads(text)
+    full = kp.dumps(doc)
+    rows = ref_rows(m)
+    lines = full.split('\n')[:-1]
+    acc.count('evaluations')
+    if len(rows) != len(lines):
+        acc.violation(Viol('well-formed', 'full-export-grid-differs-from-model', case, len(rows), len(lines)))
+        return
+    ns = len(h)
+    sets = [(i,) for i in range(ns)] + list(itertools.combinations(range(ns), 2)) + [tuple(j for j in range(ns) if j != i) for i in range(ns)] + [(9, 10, 11), (1, 10), (11, 0)]
+    for ids in sets:
+        s = set(ids)
+        acc.count('transitions')
+        acc.count('traces')
+        acc.nontriv(('wide', ids))
+        got = kp.dumps(doc, spine_ids=list(ids))
+        exp = project(rows, lines, lambda c, s=s: c.spine in s)
+        if got != exp:
+            acc.violation(Viol('projection', 'differs-from-column-projection', dict(case, options={'spine_ids': list(ids)}), exp, got))
+    for ts in subsets(sorted(set(h))):
+        if len(ts) not in (1, 2, len(set(h)) - 1):
+            continue
+        t = set(ts)
+        acc.count('transitions', 2)
+        got = kp.dumps(doc, spine_types=list(ts))
+        exp = project(rows, lines, lambda c, t=t: h[c.spine] in t)
+        if got != exp:
+            acc.violation(Viol('projection', 'differs-from-column-projection', dict(case, options={'spine_types': list(ts)}), exp, got))
+        if kp.spine_types(doc, list(ts)) != [x for x in h if x in t]:
+            acc.violation(Viol('spine-type-query', 'differs-from-projected-header-line', dict(case, headers_arg=list(ts)), [x for x in h if x in t], kp.spine_types(doc, list(ts))))
+    if doc.get_spine_ids() != list(range(ns)):
+        acc.violation(Viol('projection', 'spine-ids-differ', case, list(range(ns)), doc.get_spine_ids()))
+
+
 def menu(m, n, seed, cap):
     return X.struct_menu(m, n, seed, cap, content='db', pairs=False, multi=False, terms=True)
 
@@ -122,10 +162,11 @@ def _job(job):
 def run(ctx):
     quick = ctx.quick
     seed = ctx.seed
-    cfg = [(['**kern'], 5), (['**kern', '**text'], 5), (['**kern', '**kern'], 4), (['**text', '**kern', '**kern'], 4),
+    cfg = [(['**kern'], 5), (['**kern', '**text'], 4), (['**kern', '**kern'], 4), (['**text', '**kern', '**kern'], 3),
            (['**kern', '**text', '**kern', '**dynam'], 3)]
     if not quick:
-        cfg = [(h, d + 1) for h, d in cfg] + [(['**root', '**fing', '**kern'], 4), (['**dynam', '**harm'], 5)]
+        cfg = [(['**kern'], 6), (['**kern', '**text'], 6), (['**kern', '**kern'], 5), (['**text', '**kern', '**kern'], 5), (['**kern', '**text', '**kern', '**dynam'], 4)]
+        cfg = [(h, d) for h, d in cfg] + [(['**root', '**fing', '**kern'], 4), (['**dynam', '**harm'], 5)]
     ctx.rule = ('every enabled row sequence up to the depth bound x every subset of spine ids x every subset of header types x combinations; '
                 'non-trivial = projection removes >= 1 spine of a document containing a split')
     ctx.bounds = {'configurations': [{'headers': h, 'depth': d} for h, d in cfg], 'column_cap': 6}
@@ -138,6 +179,7 @@ def run(ctx):
             check_doc(a, h, hist)
         ctx.merge(a)
         jobs += [(h, p, rem, seed, 6) for p, rem in js]
+    check_wide(ctx, seed)
     ctx.pmap(_job, jobs, chunksize=1)
 
 
